@@ -1087,10 +1087,10 @@ def _urandom(it, self, args, kw):
 def _getsize(it, self, args, kw):
     s = _s()
     pt = s.path_term(it, args[0])
-    if not it.branch(z3.Select(it.fs_exists, pt)):
+    if not it.branch(it.fs.exists(pt)):
         it.raise_(FileNotFoundError, "No such file or directory")
     s.note(it, "os.path.getsize")
-    return VInt(z3.Length(z3.Select(it.fs_bin, pt)))
+    return VInt(z3.Length(it.fs.read_bin(pt)))
 
 
 @handler("os.path.join")
@@ -1399,7 +1399,7 @@ def _bin2hex(it, self, args, kw):
     off = argn(args, kw, 2, "offset", VInt(0))
     s.note(it, "intelhex.bin2hex")
     pin = s.path_term(it, fin)
-    if not it.branch(z3.Select(it.fs_exists, pin)):
+    if not it.branch(it.fs.exists(pin)):
         it.trace.append(("print",))
         return VInt(1)
     data = s.fs_read(it, fin, binary=True)
@@ -1471,14 +1471,80 @@ def _spec_tag(it, self, args, kw):
 @handler("spec.FILE")
 def _spec_file(it, self, args, kw):
     """Current content of a file in the ghost file system (bytes)."""
-    return VBytes(z3.Select(it.fs_bin, _s().path_term(it, args[0])))
+    return VBytes(it.fs.read_bin(_s().path_term(it, args[0])))
 
 
 @handler("spec.TEXTFILE")
 def _spec_textfile(it, self, args, kw):
-    return VStr(z3.Select(it.fs_txt, _s().path_term(it, args[0])))
+    return VStr(it.fs.read_txt(_s().path_term(it, args[0])))
 
 
 @handler("spec.EXISTS")
 def _spec_exists(it, self, args, kw):
-    return VBool(z3.Select(it.fs_exists, _s().path_term(it, args[0])))
+    return VBool(it.fs.exists(_s().path_term(it, args[0])))
+
+
+# hex-map spec builtins (abstract partial maps address -> byte; native: dicts built with bounded/hexread.py)
+@handler("spec.HEXMAP")
+def _spec_hexmap(it, self, args, kw):
+    return VOpaque(_hexfns()["FILE"](args[0].e), "hexmap")
+
+
+@handler("spec.HEX_FILE_OK")
+def _spec_hexfileok(it, self, args, kw):
+    return VBool(_hexfns()["ISHEXFILE"](args[0].e))
+
+
+@handler("spec.HEX_EMPTY")
+def _spec_hexempty(it, self, args, kw):
+    return VOpaque(_hexfns()["EMPTY"], "hexmap")
+
+
+@handler("spec.HEX_PUT")
+def _spec_hexput(it, self, args, kw):
+    return VOpaque(_hexfns()["PUT"](args[0].e, args[1].e, args[2].e), "hexmap")
+
+
+@handler("spec.HEX_MERGE")
+def _spec_hexmerge(it, self, args, kw):
+    H = _hexfns()
+    a, b = args[0].e, args[1].e
+    if z3.eq(a, H["EMPTY"]):
+        return VOpaque(b, "hexmap")
+    if z3.eq(b, H["EMPTY"]):
+        return VOpaque(a, "hexmap")
+    return VOpaque(H["MERGE"](a, b), "hexmap")
+
+
+@handler("spec.HEX_TOBIN")
+def _spec_hextobin(it, self, args, kw):
+    t = _hexfns()["TOBIN"](args[0].e, args[1].e, args[2].e, args[3].e)
+    it.assume(z3.Length(t) == z3.If(args[2].e - args[1].e + 1 > 0, args[2].e - args[1].e + 1, 0))
+    return VBytes(t)
+
+
+@handler("spec.HEX_MIN")
+def _spec_hexmin(it, self, args, kw):
+    return VInt(_hexfns()["MIN"](args[0].e))
+
+
+@handler("spec.HEX_MAX")
+def _spec_hexmax(it, self, args, kw):
+    return VInt(_hexfns()["MAX"](args[0].e))
+
+
+@handler("spec.HEX_OVERLAP")
+def _spec_hexoverlap(it, self, args, kw):
+    H = _hexfns()
+    a, b = args[0].e, args[1].e
+    if z3.eq(a, H["EMPTY"]) or z3.eq(b, H["EMPTY"]):
+        return VBool(False)
+    return VBool(H["OVERLAP"](a, b))
+
+
+@handler("spec.HEX_ISEMPTY")
+def _spec_hexisempty(it, self, args, kw):
+    H = _hexfns()
+    if z3.eq(args[0].e, H["EMPTY"]):
+        return VBool(True)
+    return VBool(H["ISEMPTY"](args[0].e))
